@@ -42,6 +42,12 @@ theorem C18_track_roundtrip {s : Schema2} {st : TStmts} (ha : alignedT s st = tr
     tGet st d' i = .ok (some (normRowT s d.uuid none i r)) :=
   track_add_get ha hwf.ids hr h
 
+/-- `add` leaves every other row as it was. -/
+theorem C18_track_add_frame {s : Schema2} {st : TStmts} (ha : alignedT s st = true) {d d' : TDb}
+    {r : Row TField} {i : Int} (h : tAdd st d r = (d', .ok i)) (j : Int) (hj : j ≠ i) :
+    findRow .id d'.rows j = findRow .id d.rows j :=
+  track_add_frame ha h j hj
+
 /-- **Update.**  After `update r` of an existing row, `get r.id` returns the row
 written, in normal form; the last-edit time is the database's stamp on 2.20.3+
 (the hypothesis on the clock says the stamp is representable as a time point);
